@@ -555,13 +555,46 @@ pub fn reset_world(trace: bool) {
         }
     }
     drop(old);
+    TW_LIVE.with(|c| c.set((c.get().0 + 1, 0)));
     w(|x| x.trace = trace);
 }
 
 // ------------------------------------------------------------------------------------------------
 // task wakers
 
-pub struct TaskW(pub usize);
+pub struct TaskW(pub usize, u64);
+
+thread_local! {
+    /// (case number, task-waker objects of that case still alive)
+    static TW_LIVE: std::cell::Cell<(u64, i64)> = std::cell::Cell::new((0, 0));
+}
+
+impl TaskW {
+    pub fn new(k: usize) -> Arc<TaskW> {
+        let case = TW_LIVE.with(|c| {
+            let (n, l) = c.get();
+            c.set((n, l + 1));
+            n
+        });
+        Arc::new(TaskW(k, case))
+    }
+}
+
+impl Drop for TaskW {
+    fn drop(&mut self) {
+        let _ = TW_LIVE.try_with(|c| {
+            let (n, l) = c.get();
+            if n == self.1 {
+                c.set((n, l - 1));
+            }
+        });
+    }
+}
+
+/// task-waker objects created since the last `reset_world` that are still referenced by somebody
+pub fn task_wakers_alive() -> i64 {
+    TW_LIVE.with(|c| c.get().1)
+}
 
 impl Wake for TaskW {
     fn wake(self: Arc<Self>) {
@@ -585,7 +618,7 @@ impl Wake for TaskW {
 }
 
 pub fn make_task_wakers() -> Vec<Waker> {
-    (0..NW).map(|k| Waker::from(Arc::new(TaskW(k)))).collect()
+    (0..NW).map(|k| Waker::from(TaskW::new(k))).collect()
 }
 
 // ------------------------------------------------------------------------------------------------
